@@ -529,7 +529,8 @@ fn format_directive<'entry>(
         FormatDirective::StartingPoint => get_starting_point(file_info).to_string_lossy(),
 
         FormatDirective::SymlinkTarget => {
-            if file_info.path_is_symlink() {
+            // Like -lname: a link the follow mode resolves is not a link.
+            if file_info.file_type().is_symlink() {
                 fs::read_link(file_info.path())?
                     .to_string_lossy()
                     .into_owned()
